@@ -2,7 +2,7 @@
    H2 = H12 /\ FI is kept by, and makes total, every operation of covered_step2:
      Op1 o                 all 26 operations of `op` (oracle alphabet run_opF)
      OpSort / OpSortModel  agent-c14: Core, RE, RV give SpecKids, SpecKids makes Element::sort total; the result is world_rel
-     OpSetVersion f v      Tree/NoPanicProofsCompat.v (every H2 world since the fix 7fd71e4 of the mask lookup; before it the call
+     OpSetVersion f v      Tree/NoPanicProofsCompat.v (every H2 world since the fix 96557f4 of the mask lookup; before it the call
      OpCheckCompat f v     panicked after a type-keeping move, Tree/NoPanicProofsCompatEx.v); check is read-only
      OpSerializeFile f     Tree/NoPanicProofsSerFile.v;  OpSerializeElem h  Tree/NoPanicProofsSer.v (read-only)
    PENDING as steps of a history (covered_step2 = false): OpDuplicate, OpLoad. *)
